@@ -3,7 +3,8 @@
 // C11 — after every settled change the recorded snap state matches the system.
 //
 // Two snaps (some-snap, some-other-snap), refresh.retain 3. Every sequence of at most D operations over
-// {install, refresh->new, refresh->kept r, revert->kept r, enable, disable, remove revision r, remove all} x snap,
+// {install, refresh->new, refresh->kept r, revert->kept r, enable, disable, remove revision r, remove all} x snap
+// plus sideload (install/refresh from a local file, revision x1, x2, … chosen by snapd) on the first snap,
 // with at most one (thorough: two) of the operations carrying an injected failure at any task of its change.
 // After every settled change the invariants of the statement are evaluated on snapstate.All, the raw "snaps"
 // entry, the configuration and the world folded from the backend's operation log.
@@ -125,12 +126,20 @@ func c11Gen(st vState) []vOp {
 		o vSnap
 	}{{"A", st.A}, {"B", st.B}} {
 		a := sn.o
+		// sideload (install/refresh from a local file, revision numbered by snapd: x1, x2, …) is offered for
+		// snap A only: B stays a store snap, it is there to catch effects leaking from one snap to the other
 		if !a.Installed {
-			ops = append(ops, vOp{K: "install", S: sn.S}, vOp{K: "sideload", S: sn.S})
+			ops = append(ops, vOp{K: "install", S: sn.S})
+			if sn.S == "A" {
+				ops = append(ops, vOp{K: "sideload", S: sn.S})
+			}
 			continue
 		}
 		ci := vIndexOf(a.Seq, a.Cur)
-		ops = append(ops, vOp{K: "refresh-new", S: sn.S}, vOp{K: "sideload", S: sn.S})
+		ops = append(ops, vOp{K: "refresh-new", S: sn.S})
+		if sn.S == "A" {
+			ops = append(ops, vOp{K: "sideload", S: sn.S})
+		}
 		for p := range a.Seq {
 			if p != ci {
 				ops = append(ops, vOp{K: "refresh-kept", S: sn.S, P: p}, vOp{K: "revert-to", S: sn.S, P: p})
@@ -341,7 +350,7 @@ func (cr *c11Runner) failingOps(st vState, onlyOp int, failuresLeft int) {
 	}
 }
 
-const c11Rule = "all operation sequences up to the length bound over the alphabet x {A,B}, states deduplicated on the canonical key (breadth-first, replay from a fresh fixture); on every generated state every operation x every splice point 0..last task (error-trigger joined to all lanes) within the failure budget, continuing from states a failed operation produced; invariants evaluated after every settled change; non-trivial = the change completed or had completed tasks to undo"
+const c11Rule = "all operation sequences up to the length bound over the alphabet x {A,B} (store operations on both snaps, sideload from a local file on A), states deduplicated on the canonical key (breadth-first, replay from a fresh fixture); on every generated state every operation x every splice point 0..last task (error-trigger joined to all lanes) within the failure budget, continuing from states a failed operation produced; invariants evaluated after every settled change; non-trivial = the change completed or had completed tasks to undo"
 
 func (s *verifC11Suite) TestVerifC11(c *C) {
 	r := eng.Start("C11", "model_checking", 300*time.Second, 14*time.Minute)
@@ -352,7 +361,7 @@ func (s *verifC11Suite) TestVerifC11(c *C) {
 		"refresh.retain=3, classic device; hooks are no-ops",
 		"state key merges fixtures equal up to renaming of revisions and clock values; sequential settle")
 	cfg := vCfg{Retain: "3"}
-	depth := r.Pick(4, 6)
+	depth := r.Pick(4, 5)
 	budget := r.Pick(1, 2)
 	oneDepth := r.Pick(5, 7) // failure-free sequences on one snap only
 	if v := os.Getenv("VERIF_C11_DEPTH"); v != "" {
@@ -395,22 +404,41 @@ func (s *verifC11Suite) TestVerifC11(c *C) {
 			np := vPath{Cfg: path.Cfg, Ops: append(append([]vOp(nil), path.Ops...), op)}
 			r.Violation("change-failed:"+op.K, fmt.Sprintf("%s without injected failure ended %s (history %s): %s", op, out.Res.Status, eng.JSON(path.Ops), out.Res.ChgErr), c11Case{Path: np, A: &out.A, B: &out.B})
 		}
+		// the generation phase may use up to 60% of the soft budget; a level that would start later is not generated
+		genBudget := time.Duration(r.Pick(180, 500)) * time.Second
+		if s := os.Getenv("VERIF_BUDGET_S"); s != "" {
+			var n int
+			if _, err := fmt.Sscanf(s, "%d", &n); err == nil {
+				genBudget = time.Duration(n) * time.Second * 6 / 10
+			}
+		}
+		vBFSStop = func(level, frontier int) bool {
+			if r.Elapsed() < genBudget {
+				return false
+			}
+			r.Cap("generation_time", fmt.Sprintf("state generation stopped before level %d (%d states left unexpanded)", level, frontier))
+			return true
+		}
 		var trans int
 		states, trans = vBFS("C11", c, []vPath{{Cfg: cfg}}, c11Gen, depth, 16)
 		seenKeys := map[string]bool{}
 		for _, s := range states {
 			seenKeys[s.Key] = true
 		}
-		one, t1 := vBFS("C11", c, []vPath{{Cfg: cfg}}, c11GenOne, oneDepth, 16)
-		trans += t1
-		oneNew := 0
-		for _, s := range one {
-			if !seenKeys[s.Key] {
-				seenKeys[s.Key] = true
-				s.Tag = "one-snap"
-				states = append(states, s)
-				oneNew++
+		// the one-snap family goes on from the deepest level of the two-snap product: every state of that level in
+		// which B is absent (all shorter one-snap histories are part of the product already)
+		var oneFrontier []vState
+		for _, s := range states {
+			if s.Depth == depth && !strings.Contains(s.Key, " B{") {
+				oneFrontier = append(oneFrontier, s)
 			}
+		}
+		one, t1 := vBFSFrom("C11", c, oneFrontier, seenKeys, c11GenOne, depth, oneDepth-depth, 16)
+		trans += t1
+		oneNew := len(one)
+		for _, s := range one {
+			s.Tag = "one-snap"
+			states = append(states, s)
 		}
 		os.MkdirAll(filepath.Dir(statesFile), 0755)
 		if err := os.WriteFile(statesFile, []byte(eng.JSON(states)), 0644); err != nil {
